@@ -13,12 +13,18 @@
 //
 // Sensitivity (tools/trymut.py, quick tier, each CAUGHT):
 //
-//	proto_array.go  inSubtree: `if anchorIndex >= lookupIndex {` guard dropped (-> `if false {`)
-//	proto_array.go  ClosestToSlot: `for min.Slot+1 < max.Slot` -> `<=`
+//	proto_array.go  inSubtree walk: `i >= anchorIndex` -> `i > anchorIndex`                  (never reaches the anchor)
+//	proto_array.go  inSubtree: `hasRelativeHead &&` dropped from the best-descendant shortcut (NONE == NONE)
+//	proto_array.go  ClosestToSlot: `for min.Slot+1 < max.Slot` -> `<=`                        (caught as ClosestToSlot/blocked)
 //	proto_array.go  Search: `node.BestDescendant == headIndex` -> `node.BestChild == headIndex`
+//	proto_array.go  Search heads: `hasChildBlock[node.Ref.Root]` -> `hasChildBlock[node.ParentRoot]`
 //	proto_array.go  CanonicalChain: the anchor `break` dropped (walks past the anchor again)
 //	proto_array.go  CanonAtSlot: `if head.Slot < slot` -> `<=`
-//	proto_array.go  ProcessBlock: `TransitionParent: transitionParentIndex` -> `forkchoiceParentIndex`
+//	proto_array.go  ProcessBlock: `TransitionParent: transitionParentIndex` -> `transitionParentIndex - 1`
+//
+// MISSED and judged equivalent on the repaired tree: dropping inSubtree's `anchorIndex >= lookupIndex`
+// guard (DESIGN.md's planned mutant) - with the slot test before it and the hasRelativeHead guard
+// after it no remaining path can answer true for a later-inserted anchor.
 package c11
 
 import (
@@ -41,7 +47,7 @@ func TestCheck(t *testing.T) {
 			"q:ClosestToSlot:before-first-node", "q:ClosestToSlot:beyond-last-node", "q:CanonAtSlot:wb=true/mid-chain/empty-slot", "q:CanonAtSlot:wb=false/mid-chain", "q:CanonAtSlot:wb=false/beyond-head",
 			"q:CanonAtSlot:wb=false/at-head-slot", "q:Search:heads/canon+noncanon", "q:Search:by-parent/canon+noncanon", "q:Search:by-slot/noncanon-only"},
 		SampleTags: []string{"q-nontrivial:CanonicalChain", "q-nontrivial:Search", "q-nontrivial:CanonAtSlot", "q-when:post-prune"},
-		Quick:      3000, Thorough: 60000,
+		Quick:      10000, Thorough: 200000,
 		Sweep: true,
 		Tour:  fcsim.TourC11(),
 	})
